@@ -488,9 +488,15 @@ def check_override(case):
     world = None
     try:
         world = c05._build(wcase, uid, log, parsed)
+        # implementations built on another spec of the world (its parser / a combiner on it; c05 round 7) need the
+        # parsers to exist before the spec sets are defined - the order c05's own checks use
+        parsers_first = bool(getattr(c05, "_uses_specs", lambda c: False)(wcase))
+        if parsers_first:
+            world["define_parsers"]()
         for si in range(len(wcase["sets"])):
             world["define_set"](si)
-        world["define_parsers"]()
+        if not parsers_first:
+            world["define_parsers"]()
         graph = {}
         for ps in world["parsers"]:
             graph.update(dr.get_dependency_graph(ps))
